@@ -107,6 +107,7 @@ func checkC09(p *Prog, res *Result, tier string) {
 	res.rule("C09-R4", "engine-commit error classification of the TiKV adapter", 3)
 	res.rule("C09-R8", "in pkg/backend the error of an engine read (Iter, Next, Get) is returned unless it was found nil or classified (io.EOF, ErrKeyNotFound): 'not found' is answered only for end-of-data", 3)
 	res.rule("C09-R7", "the repair queue is a FIFO that loses nothing: push links the new entry behind the old tail and makes it the tail on every path", 2)
+	res.rule("C09-R9", "no classification test (errors.Is / == storage sentinel) looks at an error value that an enclosing branch has already classified as a different, disjoint class: such a test is dead and betrays a stale error variable", 8)
 	res.rule("C09-R6", "on the write path the error of a committing call is returned as is (or wrapped) unless it was found nil or classified (errors.Is / == sentinel / conflict assertion)", 6)
 	res.rule("C09-R5", "a nil error is returned to the client only after success or a definite failure class", 6)
 
@@ -188,6 +189,7 @@ func checkC09(p *Prog, res *Result, tier string) {
 			res.ok("C09-R1", construct, p.pos(app.Pos()), "no commit of the slot's revision can execute before the append within one iteration")
 		}
 	}
+	checkContradictoryClassification(p, res, "C09-R9")
 	// sentinel discipline: wrapped sentinels compared with ==
 	for _, g := range []*ssa.Global{uncertain, casFailed} {
 		cmps := sentinelEqComparisons(p, g)
